@@ -47,6 +47,26 @@ def _batch(tier, seed):
         inputs = ["".join(w) for w in gen.directed_inputs(g, rng, n_all=2, maxlen=5, n_sent=4, n_mut=1)][:8]
         items.append({"name": "%s [%s]" % (gen.gname(g), "LALR" if i % 3 else "SLR"), "gtext": gen.gtext(g), "tables": "LALR" if i % 3 else "SLR", "inputs": inputs,
                       "origin": "det" if i < len(fam) - p["ngram"] // 5 else "rand"})
+    # priorities on alternatives: a reduction can win one lookahead by priority (R/R) and stay in conflict on another (S/R); what happens on
+    # one lookahead of an item must not depend on the order its lookahead SET is walked in (round-5 seeded change C16-g)
+    rng3 = random.Random(1619)
+    k = 0
+    for g in fam[: len(fam) - p["ngram"] // 5]:
+        if len(g["prods"]) < 4 or k >= p["ngram"] // 3:
+            continue
+        k += 1
+        by, order = {}, []
+        for lhs, rhs in g["prods"]:
+            by.setdefault(lhs, []).append((" ".join(rhs) if rhs else "EMPTY") + rng3.choice(["", "", " {20}", " {5}", " {15}"]))
+            if lhs not in order:
+                order.append(lhs)
+        text = "".join("%s: %s;\n" % (lhs, " | ".join(by[lhs])) for lhs in order) + "terminals\n" + gen.gtext({"prods": [], "terms": g["terms"]}).split("terminals\n")[1]
+        inputs = ["".join(w) for w in gen.directed_inputs(g, rng3, n_all=2, maxlen=5, n_sent=4, n_mut=1)][:8]
+        items.append({"name": "%s [priorities]" % text.split("terminals")[0].replace("\n", " ").strip(), "gtext": text, "inputs": inputs, "origin": "det"})
+    items.append({"name": "priority-on-one-lookahead", "origin": "det", "inputs": ["a q w", "a z", "a q"],
+                  "gtext": 'S: B "z" | B "q" "w" | A "z" | C;\nA: "a" {20};\nB: "a";\nC: "a" "q";\n'})
+    items.append({"name": "priority-on-one-lookahead-2", "origin": "det", "inputs": ["x y", "x z", "x y y"],
+                  "gtext": 'S: P "y" | Q "y" | Q "z" | R "y";\nP: "x" {15};\nQ: "x";\nR: "x" "y" {5};\n'})
     for name, text, inputs in SPECIAL_TEXT:
         items.append({"name": name, "gtext": text, "inputs": inputs, "origin": "det"})
     for name, root, files, inputs in IMPORT_CASES:
